@@ -1,4 +1,171 @@
-use crate::run::{Ctx, Ev};
+//! C09 - privileged operations are restricted to their role in all five contracts (Byzantine-sender matrix).
+use serde_json::json;
+use std::collections::BTreeSet;
+
+use crate::run::{Ctx, Ev, Runner};
+use crate::types::*;
 use crate::world::World;
-pub fn step(_ctx: &Ctx, _w: &World, _ev: &mut Ev) {}
-pub fn probe(_r: &mut crate::run::Runner) {}
+
+/// who is entitled to send this operation, given the currently observed role holders
+fn entitled(r: &Runner, op: &Op) -> Vec<String> {
+    let e = r.obs.eng.clone().unwrap_or_default();
+    match op {
+        Op::SwapInput { vamm, .. } | Op::SwapOutput { vamm, .. } | Op::SettleFunding { vamm } => vec![r.obs.vamms[*vamm].margin_engine.clone()],
+        Op::VammConfig { vamm, .. } | Op::VammOwner { vamm, .. } => vec![r.obs.vamms[*vamm].owner.clone()],
+        Op::SetOpen { vamm, .. } => vec![r.obs.vamms[*vamm].owner.clone(), r.obs.vamms[*vamm].insurance_fund.clone()],
+        Op::EngineConfig { .. } => vec![e.owner.clone()],
+        Op::UpdatePauser { .. } | Op::AddWhitelist { .. } | Op::RemoveWhitelist { .. } | Op::SetPause { .. } => vec![e.pauser.clone()],
+        Op::IfWithdraw { .. } => vec![r.w.addrs.engine.clone()],
+        Op::IfOwner { .. } | Op::AddVamm { .. } | Op::RemoveVamm { .. } => vec![r.obs.if_owner.clone()],
+        // the fund's own address is also accepted by the contract; no code path sends it, the cell is excluded (DESIGN 5.C09)
+        Op::Shutdown => vec![r.obs.if_owner.clone(), r.w.addrs.insurance_fund.clone()],
+        Op::FpOwner { .. } | Op::FpAddToken { .. } | Op::FpRemoveToken { .. } | Op::FpSend { .. } => vec![r.obs.fp_owner.clone()],
+        Op::AppendPrice { .. } | Op::AppendMulti { .. } | Op::PfOwner { .. } => vec![r.obs.pf_owner.clone()],
+        _ => vec![],
+    }
+}
+
+fn contract_of(op: &Op) -> &'static str {
+    match op.target() {
+        Target::Engine => "engine",
+        Target::Vamm(_) => "vamm",
+        Target::InsuranceFund => "insurance_fund",
+        Target::FeePool => "fee_pool",
+        Target::PriceFeed => "pricefeed",
+        _ => "other",
+    }
+}
+
+pub fn variants(r: &Runner) -> Vec<Op> {
+    let d = r.w.d;
+    let v0 = &r.obs.vamms[0];
+    let eng = r.obs.eng.clone().unwrap_or_default();
+    let now = r.w.now();
+    let registered0 = v0.registered;
+    let mut ops = vec![
+        Op::VammConfig { vamm: 0, holding_cap: None, oi_cap: None, toll: None, spread: None, fluct: Some(v0.fluct), margin_engine: None, insurance_fund: None, pricefeed: None, twap_interval: None },
+        Op::VammOwner { vamm: 0, owner: "stranger".into() },
+        Op::SwapInput { vamm: 0, dir: Dir::Add, quote: (v0.q / 100_000).max(10), limit: 0, can_go_over: true },
+        Op::SwapOutput { vamm: 0, dir: Dir::Add, base: (v0.b / 100_000).max(10), limit: 0 },
+        Op::SettleFunding { vamm: 0 },
+        Op::SetOpen { vamm: 0, open: !v0.open },
+        Op::SetOpen { vamm: 0, open: v0.open },
+        Op::EngineConfig { owner: None, insurance_fund: None, fee_pool: None, initial: None, maintenance: None, partial: Some(eng.partial), liq_fee: None },
+        Op::EngineConfig { owner: Some("stranger".into()), insurance_fund: None, fee_pool: None, initial: None, maintenance: None, partial: None, liq_fee: None },
+        Op::UpdatePauser { pauser: "stranger".into() },
+        Op::AddWhitelist { address: "keeper".into() },
+        Op::RemoveWhitelist { address: "trader0".into() },
+        Op::SetPause { pause: !r.model.paused },
+        Op::IfOwner { owner: "stranger".into() },
+        if registered0 { Op::RemoveVamm { vamm: "@vamm0".into() } } else { Op::AddVamm { vamm: "@vamm0".into() } },
+        if registered0 { Op::AddVamm { vamm: "@vamm1".into() } } else { Op::RemoveVamm { vamm: "@vamm1".into() } },
+        Op::IfWithdraw { amount: 1 },
+        Op::Shutdown,
+        Op::FpOwner { owner: "stranger".into() },
+        Op::FpAddToken { token: "@token".into() },
+        Op::FpRemoveToken { token: "@token".into() },
+        Op::FpSend { amount: 1, recipient: "stranger".into() },
+        Op::AppendPrice { vamm: 0, price: v0.spot.max(1), timestamp: now },
+        Op::AppendMulti { vamm: 0, prices: vec![v0.spot.max(1).to_string()], timestamps: vec![now] },
+        Op::PfOwner { owner: "stranger".into() },
+    ];
+    let _ = d;
+    if r.w.addrs.vamms.len() < 2 {
+        ops.retain(|o| !matches!(o, Op::AddVamm { vamm } | Op::RemoveVamm { vamm } if vamm == "@vamm1"));
+    }
+    ops
+}
+
+pub fn probe(r: &mut Runner) {
+    if r.w.cfg.kind != WorldKind::Standard || r.obs.vamms.is_empty() || !r.obs.vamms[0].ok {
+        return;
+    }
+    let e = r.obs.eng.clone().unwrap_or_default();
+    // sender kinds: every current role holder, every former holder, every contract address, traders and strangers
+    let mut senders: Vec<(String, String)> = vec![
+        ("engine_owner".into(), e.owner.clone()),
+        ("pauser".into(), e.pauser.clone()),
+        ("if_owner".into(), r.obs.if_owner.clone()),
+        ("fp_owner".into(), r.obs.fp_owner.clone()),
+        ("pf_owner".into(), r.obs.pf_owner.clone()),
+        ("vamm_owner".into(), r.obs.vamms[0].owner.clone()),
+        ("engine_contract".into(), r.w.addrs.engine.clone()),
+        ("insurance_fund_contract".into(), r.w.addrs.insurance_fund.clone()),
+        ("vamm_contract".into(), r.w.addrs.vamms[0].clone()),
+        ("fee_pool_contract".into(), r.w.addrs.fee_pool.clone()),
+        ("trader".into(), "trader0".into()),
+        ("stranger".into(), "stranger".into()),
+    ];
+    for (role, who) in r.model.former.iter() {
+        senders.push((format!("former_{}", role), who.clone()));
+    }
+    let mut seen = BTreeSet::new();
+    senders.retain(|(_, a)| !a.is_empty() && seen.insert(a.clone()));
+    let former_any: BTreeSet<String> = r.model.former.iter().map(|x| x.1.clone()).collect();
+    let ops = variants(r);
+    let base_dump = r.w.dump();
+    for op in ops.iter() {
+        let ent = entitled(r, op);
+        let contract = contract_of(op);
+        for (skind, saddr) in senders.iter() {
+            if matches!(op, Op::Shutdown) && *saddr == r.w.addrs.insurance_fund {
+                continue; // excluded cell
+            }
+            let is_ent = ent.iter().any(|x| x == saddr);
+            let o2 = op.clone();
+            let sa = saddr.clone();
+            let (out, dump_after) = r.fork(|w| {
+                let out = w.exec(&sa, &o2, 0, None);
+                let dmp = if out.ok { None } else { Some(w.dump()) };
+                (out, dmp)
+            });
+            let after_transfer = former_any.contains(saddr) || !r.model.former.is_empty();
+            let variant = match op {
+                Op::SetOpen { open, .. } => format!("SetOpen({})", open),
+                Op::EngineConfig { owner: Some(_), .. } => "EngineConfig(owner)".to_string(),
+                o => o.kind().to_string(),
+            };
+            r.ev.eval(!is_ent || out.ok, &(contract, variant.clone(), skind.clone(), after_transfer, is_ent), || {
+                json!({"contract": contract, "variant": variant, "sender_kind": skind, "sender": saddr, "entitled": is_ent, "succeeded": out.ok})
+            });
+            if is_ent {
+                if out.ok {
+                    r.ev.count(&format!("entitled_ok/{}/{}", contract, variant));
+                }
+            } else {
+                r.ev.count("cells/not_entitled");
+                if out.ok {
+                    r.ev.violation("unauthorized_succeeded", &format!("{},{},{}", contract, variant, skind), json!({"sender": saddr, "op": serde_json::to_value(op).unwrap_or_default()}));
+                } else if dump_after.as_ref().map(|d| *d != base_dump).unwrap_or(false) {
+                    r.ev.violation("unauthorized_changed_state", &format!("{},{},{}", contract, variant, skind), json!({"sender": saddr}));
+                }
+            }
+        }
+    }
+}
+
+/// main history: a privileged operation that succeeds must have been sent by its role holder
+pub fn step(ctx: &Ctx, w: &World, ev: &mut Ev) {
+    if w.cfg.kind != WorldKind::Standard || !ctx.out.ok {
+        return;
+    }
+    let sender = w.resolve(&ctx.step.actor);
+    let e = ctx.pre.eng.clone().unwrap_or_default();
+    let ent: Vec<String> = match &ctx.step.op {
+        Op::VammConfig { vamm, .. } | Op::VammOwner { vamm, .. } => vec![ctx.pre.vamms[*vamm].owner.clone()],
+        Op::SetOpen { vamm, .. } => vec![ctx.pre.vamms[*vamm].owner.clone(), ctx.pre.vamms[*vamm].insurance_fund.clone()],
+        Op::EngineConfig { .. } => vec![e.owner.clone()],
+        Op::UpdatePauser { .. } | Op::AddWhitelist { .. } | Op::RemoveWhitelist { .. } | Op::SetPause { .. } => vec![e.pauser.clone()],
+        Op::IfOwner { .. } | Op::AddVamm { .. } | Op::RemoveVamm { .. } => vec![ctx.pre.if_owner.clone()],
+        // the fund's own address is the excluded cell (DESIGN 5.C09)
+        Op::Shutdown => vec![ctx.pre.if_owner.clone(), w.addrs.insurance_fund.clone()],
+        Op::FpOwner { .. } | Op::FpAddToken { .. } | Op::FpRemoveToken { .. } | Op::FpSend { .. } => vec![ctx.pre.fp_owner.clone()],
+        Op::AppendPrice { .. } | Op::AppendMulti { .. } | Op::PfOwner { .. } if w.cfg.oracle == OracleKind::Real => vec![ctx.pre.pf_owner.clone()],
+        _ => return,
+    };
+    let kind = ctx.step.op.kind();
+    ev.eval(true, &("main", kind, ent.iter().any(|x| *x == sender)), || json!({"where": "main_history", "op": kind, "sender": sender}));
+    if !ent.iter().any(|x| *x == sender) {
+        ev.violation("unauthorized_succeeded", &format!("{},{},main", contract_of(&ctx.step.op), kind), json!({"sender": sender, "entitled": ent}));
+    }
+}
